@@ -22,7 +22,7 @@ ANCHORS = ["decaylanguage.dec.dec:get_definitions", "decaylanguage.dec.dec:get_a
            "decaylanguage.dec.dec:get_lineshape_settings", "decaylanguage.dec.dec:get_lineshapePW_definitions", "decaylanguage.dec.dec:get_global_photos_flag"]
 WORKERS = {"quick": 4, "thorough": 16}
 WTESTS = {"groups": ['parse'], "tests": ['tests/dec'], "counts": ["C01.parse."]}
-REQUIRED = {"particle:width-default-via-alias-declared-for-two-particles": 5, "copydecay-source-is-another-copy": 10, "multi-file:part-without-final-newline": 10, "queries-asked-twice-with-returned-values-edited": 50, **{f"kind:{k}": 20 for k in KINDS}, **{f"repeated:{k}": 8 for k in KINDS if k not in ("LSPW", "LS", "BW", "CM", "INC", "Photos")},
+REQUIRED = {"second-parse-same-instance": 30, "particle:width-default-via-alias-declared-for-two-particles": 5, "copydecay-source-is-another-copy": 10, "multi-file:part-without-final-newline": 10, "queries-asked-twice-with-returned-values-edited": 50, **{f"kind:{k}": 20 for k in KINDS}, **{f"repeated:{k}": 8 for k in KINDS if k not in ("LSPW", "LS", "BW", "CM", "INC", "Photos")},
             "repeated-lineshape-setting(must-raise)": 10, "lineshape:several-kinds-one-particle": 10, "photos:absent": 10, "photos:one": 10, "photos:several-last-differs": 5,
             "photos:three-or-more": 5, "particle:width-default-real": 10, "particle:width-default-via-alias": 10, "particle:alias-name-reused-across-files": 5, "particle:explicit-width": 10,
             "jetset:int": 10, "jetset:float": 10, "jetset:signed": 5, "pythia:number": 10, "pythia:word": 10, "statements-between-blocks": 20,
@@ -209,6 +209,22 @@ def check(ctx, stmts, text, wit, workload, um=(), files=None, hits=()):
         snapshot.edit_returned_values(p)
         for mech, msg in snapshot.compare_globals(p, exp):
             ctx.violate("asked-again:" + mech, msg, wit)
+    if not first and ctx.rng.random() < 0.3:
+        # the same object parsed again (with the other value of the switch, and back): every statement is still accounted for
+        import warnings  # noqa: PLC0415
+
+        ctx.hit("second-parse-same-instance")
+
+        def again():
+            with warnings.catch_warnings():
+                warnings.simplefilter("ignore")
+                p.parse(include_ccdecays=False)
+                p.parse()
+            return snapshot.compare_globals(p, exp)
+
+        ok9, bad9 = ctx.guard("second-parse", wit, again)
+        for mech, msg in (bad9 or []):
+            ctx.violate("after-second-parse:" + mech, msg, wit)
     if files is None:
         for mech, msg in snapshot.compare_tables(p, exp):
             ctx.violate("with-globals:" + mech, msg, wit)
